@@ -29,7 +29,8 @@ type input struct {
 }
 
 // clientKey: client i always uses key i (so a misdelivered reply cannot be decrypted by accident)
-func clientKey(tr *udpx.Trace, c int) *world.Key { return tr.Keys[c%3] }
+// (the two clients that differ only in their zone, 4 and 5, share a key: one user on two interfaces)
+func clientKey(tr *udpx.Trace, c int) *world.Key { return tr.Keys[[]int{0, 1, 2, 0, 1, 1}[c]] }
 
 func ownership(tr *udpx.Trace) []*engine.Finding {
 	var fs []*engine.Finding
@@ -186,6 +187,8 @@ func menu() []udpx.Op {
 	// destinations that must not create an association: private literal, name resolving to a private address
 	m = append(m, udpx.Op{K: "S", C: 0, Key: 0, T: 1, N: 4, Mod: "private"}, udpx.Op{K: "S", C: 1, Key: 1, T: 1, N: 4, Mod: "private-domain"},
 		udpx.Op{K: "S", C: 2, Key: 2, T: 1, N: 4, Mod: "cgnat"}, udpx.Op{K: "S", C: 1, Key: 1, T: 1, N: 4, Mod: "cgnat-mapped"}, udpx.Op{K: "S", C: 0, Key: 0, T: 1, N: 4, Mod: "ula"})
+	// two clients that differ only in the IPv6 zone of their address
+	m = append(m, udpx.Op{K: "S", C: 4, Key: 1, T: 1, N: 20}, udpx.Op{K: "S", C: 5, Key: 1, T: 1, N: 20}, udpx.Op{K: "R", C: 4, T: 1, N: 16}, udpx.Op{K: "R", C: 5, T: 1, N: 16})
 	m = append(m, udpx.Op{K: "A", D: 9 * time.Second}, udpx.Op{K: "A", D: 11 * time.Second})
 	return m
 }
